@@ -1078,7 +1078,8 @@ def orthoxml(species, groups, newlines=True, dbsplit=None, style=None):
             note = ('<notes>checked against <c:geneRef xmlns:c="urn:curation" id="%s"/><c:property xmlns:c="urn:curation" '
                     'name="TaxRange" value="nowhere"/><c:score xmlns:c="urn:curation" id="bootstrap" value="0.5"/></notes>' % xml_escape(other))
             k = x.rfind('</orthologGroup>')
-            x = x[:k] + note + x[k:]
+            if k >= 0:      # (an empty top-level group is written <orthologGroup/>: there is no inside to put a note into)
+                x = x[:k] + note + x[k:]
         if style.get('breaks') and newlines:
             # line breaks INSIDE a group: before every annotation element and before every second member, so that lines start
             # with <property ...>, <score ...> or <geneRef ...> and go on with other elements (legal white space; r11-C11a / C01a:
